@@ -647,6 +647,7 @@ func vpH_c16_reuse() {
 // ---- one destination, two documents ----
 
 type vpHolder struct {
+	M     map[string]string `yaml:"m"`
 	Name  string         `yaml:"name"`
 	Extra any            `yaml:"extra"`
 	Ptr   *vpInner       `yaml:"ptr"`
@@ -667,6 +668,9 @@ func vpH_c16_twice() {
 	in1 := NewMap[string, any](1)
 	in1.Set("x", "X1")
 	doc1.Set("ptr", in1)
+	mm1 := NewMap[string, any](1)
+	mm1.Set("team", "infra")
+	doc1.Set("m", mm1)
 	var h vpHolder
 	vpAssert(Unmarshal(doc1, &h) == nil, "the first document decodes")
 	before := vpSnapshot(doc1)
@@ -697,8 +701,31 @@ func vpH_c16_twice() {
 		in2.Set("y", w)
 		doc2.Set("ptr", in2)
 	}
+	mKind := vpInt(0, 3)
+	switch mKind {
+	case 1:
+		doc2.Set("m", nil)
+	case 2:
+		doc2.Set("m", NewMap[string, any](0))
+	case 3:
+		mm2 := NewMap[string, any](1)
+		mm2.Set("k", w)
+		doc2.Set("m", mm2)
+	}
 	vpAssert(Unmarshal(doc2, &h) == nil, "the second document decodes")
 	vpAssert(h.Name == "n1", "an absent key leaves the field as it was")
+	switch mKind {
+	case 0, 2:
+		vpAssert(len(h.M) == 1 && h.M["team"] == "infra", "an absent key, and a mapping without entries, leave the entries a map field holds")
+	case 1:
+		vpAssert(h.M == nil, "null zeroes a map field")
+	case 3:
+		vpAssert(len(h.M) == 2 && h.M["team"] == "infra" && h.M["k"] == w, "a mapping adds its entries to the map a field holds")
+	}
+	if mKind == 2 {
+		var fresh vpHolder
+		vpAssert(Unmarshal(doc2, &fresh) == nil && fresh.M != nil && len(fresh.M) == 0, "a mapping without entries gives a fresh map field an empty map, not a nil one")
+	}
 	switch kind {
 	case 0:
 		got, ok := h.Extra.(*Map[string, any])
